@@ -673,8 +673,11 @@ def trough_names(ctx) -> None:
     # keys: A{c+1:02d}
     keys = key_stores
     okk = False
-    if len(keys) == 1 and isinstance(keys[0].ast.targets[0].slice, ast.JoinedStr):
-        parts = template_parts(keys[0].ast.targets[0].slice)
+    kslice = keys[0].ast.targets[0].slice if len(keys) == 1 else None
+    if isinstance(kslice, ast.Name):
+        kslice = fv.def_expr(kslice, keys[0].id)[0]  # the key held in a (single-definition) local
+    if len(keys) == 1 and isinstance(kslice, ast.JoinedStr):
+        parts = template_parts(kslice)
         holes = [p for p in parts if isinstance(p, Hole)]
         if len(holes) == 1 and parts[0] == "A" and holes[0].spec == "02d":
             h = fv.res.resolve(holes[0].expr, keys[0].id)
